@@ -149,6 +149,19 @@ pub fn case(rng: &mut Rng, ctx: &mut Ctx) -> Program {
     ctx.count(&format!("cases.{}.{:?}", opname, form));
     // parameter expression
     let param_expr = param.as_ref().map(|pv| value_expr_via(pv, &p, "tmpp", &mut pre));
+    // the parameter given as a pronoun: `put <param> into Param` is then the last statement before the
+    // mutation, so `it` is Param (the parameter is evaluated before the operand is named)
+    let pronoun_param = param_expr.is_some()
+        && matches!(form, Form::IntoVariable | Form::IntoSubscript | Form::FromSubscriptInto | Form::InPlaceVariable)
+        && rng.chance(1, 5);
+    let mut late: Vec<Stmt> = Vec::new();
+    let param_expr = if pronoun_param {
+        ctx.count("cases.parameter_is_a_pronoun");
+        late.push(put(param_expr.clone().unwrap(), &p));
+        Some(Expr::Prim(Prim::Ident(Ident::Pronoun)))
+    } else {
+        param_expr
+    };
     let mut body = Vec::new();
     let result_may_be_array = opname == "cut";
     match form {
@@ -230,6 +243,7 @@ pub fn case(rng: &mut Rng, ctx: &mut Ctx) -> Program {
             }
         }
     }
+    pre.extend(late);
     pre.extend(body);
     pre.push(say(strlit("end")));
     Program::single(pre)
